@@ -6,7 +6,7 @@ their conjunction (the properties quantify over valuations with non-zero divisor
 """
 import z3
 
-PMAX = 3  # integer exponents are encoded for 0..PMAX (stated bound)
+PMAX = 3  # integer exponents are encoded for -PMAX..PMAX (stated bound)
 
 
 class NeedIntMode(Exception):
@@ -265,10 +265,14 @@ class Sem:
         if self.is_bool(a) or self.is_bool(b):
             raise TypeError('logical **')
         if self.is_int(b):
-            self.defined.append(z3.And(b >= 0, b <= PMAX))
+            self.defined.append(z3.And(b >= -PMAX, b <= PMAX))
             if self.is_real(a) and self.real_mode == 'uf':
                 return self.f['powi'](a, b)
             one = self.int_lit(1) if self.is_int(a) else z3.RealVal(1)
+            zero = self.int_lit(0) if self.is_int(a) else z3.RealVal(0)
+            sb0 = z3.simplify(b)
+            literal_nonneg = (z3.is_int_value(sb0) or z3.is_bv_value(sb0)) and \
+                (sb0.as_signed_long() if z3.is_bv_value(sb0) else sb0.as_long()) >= 0
             acc = one
             chain = []
             for e in range(0, PMAX + 1):
@@ -277,6 +281,16 @@ class Sem:
             res = chain[-1][1]
             for e, v in reversed(chain[:-1]):
                 res = z3.If(b == e, v, res)
+            if not literal_nonneg:
+                # negative exponents: 1/(a**e), defined for a /= 0; integer base: truncating division, i.e.
+                # 1 for a == 1, (-1)**e for a == -1, 0 otherwise (F2008 7.1.5.2.1)
+                self.defined.append(z3.Or(b >= 0, a != zero))
+                for e in range(1, PMAX + 1):
+                    if self.is_int(a):
+                        v = z3.If(a == one, one, z3.If(a == -one, one if e % 2 == 0 else -one, zero))
+                    else:
+                        v = z3.RealVal(1) / chain[e][1]
+                    res = z3.If(b == -e, v, res)
             sb = z3.simplify(b)
             if z3.is_int_value(sb) or z3.is_bv_value(sb):
                 res = z3.simplify(res)
